@@ -46,7 +46,8 @@ def parseTiles (s : String) : Option (Std.HashMap Coord Nat) :=
       | _ => none) {}
 
 def parseSrc (s : String) : Option (Op Pay) :=
-  match s.splitOn ";" with
+  -- an optional fifth field (the container kind) is read by the harness only
+  match (s.splitOn ";").take 4 with
   | [f, c, cov, tiles] =>
     match f.toNat?, c.toNat?, parseCover cov, parseTiles tiles with
     | some f, some c, some cov, some m =>
